@@ -82,7 +82,7 @@ class ValidationScenario(StateScenario):
                     out.append((p, "required %s is empty" % k))
             if f.get("validator") and v is not None:
                 validators.append(("field", self.tag(st, p), canon(v) if not isinstance(v, (list, dict)) else ("container", len(v))))
-                if f["validator"] == "neg" and model._neg_predicate(v):
+                if f["validator"] in ("neg", "negk") and model._neg_predicate(v):
                     out.append((p, "field validator rejects the value"))
         for vid in snode.get("validators", ()):
             validators.append(("schema", self.tag(st, path) or "<root>", snapshot.snap(cfgobj, None, False)))
@@ -376,6 +376,15 @@ class ValidationScenario(StateScenario):
                 self.judge_return(st, rec, new, inode, "%s[%d]" % (path, idx), i0, fired0, "list-" + how + ("-config" if op.get("as_config") else "-map"), None)
         else:
             self.judge_return(st, rec, None, inode, path, i0, fired0, "list-" + how, err)
+            if op.get("as_config") and not (st.B.fault_fired > fired0):
+                # the same object is offered again: a rejected item stays rejected while nothing about it changed
+                i1 = len(st.B.vlog)
+                _, err2 = self._call(lambda: lst.append(value))
+                rec.log("insert_item-retry", type(err2).__name__ if err2 else "ok")
+                rec.probe("retry-rejected-config-item")
+                if err2 is None:
+                    new = list.__getitem__(lst, len(lst) - 1)
+                    self.judge_return(st, rec, new, inode, "%s[%d]" % (path, len(lst) - 1), i1, st.B.fault_fired, "list-append-config-retry", None)
 
 
 SCENARIO = ValidationScenario()
